@@ -1206,18 +1206,30 @@ def _hoist_asserts(block: tuple) -> tuple:
             if st[0] == "if" and len(st) == 4:
                 a, b = _hoist_asserts(st[2]), _hoist_asserts(st[3])
                 if not _has_effectful_call(st[1]):
-                    ka = 0
-                    while ka < len(a) and isinstance(a[ka], tuple) and a[ka][:1] == ("assert",) and len(a[ka]) == 2:
-                        ka += 1
-                    kb = 0
-                    while kb < len(b) and isinstance(b[kb], tuple) and b[kb][:1] == ("assert",) and len(b[kb]) == 2:
-                        kb += 1
-                    if ka or kb:
-                        for x in a[:ka]:
+                    def leading(arm):
+                        """(assertions that open the arm -- also past plain local definitions they do not read --, the rest)"""
+                        took, rest, defined = [], [], []
+                        k = 0
+                        while k < len(arm):
+                            x = arm[k]
+                            if isinstance(x, tuple) and x[:1] == ("assert",) and len(x) == 2 and not any(contains(x[1], v) for v in defined):
+                                took.append(x)
+                            elif isinstance(x, tuple) and x[:1] == ("set",) and len(x) == 3 and isinstance(x[1], tuple) and x[1][:1] == ("v",) \
+                                    and not _has_effectful_call(x[2]):
+                                defined.append(x[1])
+                                rest.append(x)
+                            else:
+                                break
+                            k += 1
+                        return took, tuple(rest) + tuple(arm[k:])
+                    ta_, a2 = leading(a)
+                    tb_, b2 = leading(b)
+                    if ta_ or tb_:
+                        for x in ta_:
                             out.append(("assert", mk_or([mk_not(st[1]), x[1]])))
-                        for x in b[:kb]:
+                        for x in tb_:
                             out.append(("assert", mk_or([st[1], x[1]])))
-                        a, b = a[ka:], b[kb:]
+                        a, b = a2, b2
                         if a or b:
                             out.append(_flat_if(mk_if(st[1], tuple(a), tuple(b))))
                         continue
